@@ -37,12 +37,18 @@ def sim_run(pexpect, case):
     modes = []
     c = pexpect.spawn(None, timeout=5, use_poll=case['use_poll'])
 
+    state = {'dead': False}
+
     class FP:
         flag_eof = False
         status = exitstatus = signalstatus = None
 
         def isalive(self_):
-            return True
+            # the child's death becomes visible at the first liveness check after it
+            while events and events[0][0] == 'exit':
+                events.pop(0)
+                state['dead'] = True
+            return not state['dead']
     c.ptyproc = FP()
     c.child_fd, c.closed, c.pid = CHILD_FD, False, 4242
     c.STDIN_FILENO, c.STDOUT_FILENO = STDIN_FD, STDOUT_FD
@@ -55,17 +61,22 @@ def sim_run(pexpect, case):
     c.stdout = Out()
     saved = (ps.select_ignore_interrupts, ps.poll_ignore_interrupts, os.read, os.write, ps.tty.tcgetattr, ps.tty.setraw, ps.tty.tcsetattr)
 
-    def ready():
+    def ready(fds, timeout):
         if not events:
-            return [CHILD_FD]          # the script is over: the child's output ends
-        e = events[0]
-        return [STDIN_FD] if e[0] == 'typed' else [CHILD_FD]
+            got = [CHILD_FD]           # the script is over: the child's output ends
+        else:
+            e = events[0]
+            got = [STDIN_FD] if e[0] == 'typed' else [CHILD_FD]
+        got = [f for f in got if f in fds]
+        if not got and timeout is None:
+            raise RuntimeError('interact() would block for ever: it waits on %r but the next event is %r' % (fds, events[:1]))
+        return got
 
     def sel(r, w, x, timeout=None):
-        return (ready(), [], [])
+        return (ready(r, timeout), [], [])
 
     def pol(fds, timeout=None):
-        return ready()
+        return ready(fds, timeout)
 
     def rd(fd, n):
         if fd in (CHILD_FD, STDIN_FD):
@@ -130,11 +141,14 @@ def sim_run(pexpect, case):
 
 def gen_case(rng):
     esc = rng.choice([29, 29, 29, None, 120])
+    exits = rng.random() < 0.45          # sessions in which the child terminates at some point
     events = []
     for _ in range(rng.randint(0, 6)):
         x = rng.random()
         if x < 0.45:
             events.append(('out', bytes(rng.choice(b'abxyz\n\x1d') for _ in range(rng.randint(1, 5)))))
+        elif x < 0.52 and exits:
+            events.append(('exit',))
         elif x < 0.9:
             d = bytes(rng.choice(b'abcxq\r') for _ in range(rng.randint(1, 5)))
             if esc is not None and rng.random() < 0.35:
@@ -150,22 +164,28 @@ def gen_case(rng):
 
 
 def coq_case(case):
-    evs = clist(['(ChildOut %s)' % ctext(e[1]) if e[0] == 'out' else ('(Typed %s)' % ctext(e[1]) if e[0] == 'typed' else 'ChildEof') for e in case['events']])
+    evs = clist(['(ChildOut %s)' % ctext(e[1]) if e[0] == 'out' else ('(Typed %s)' % ctext(e[1]) if e[0] == 'typed' else ('ChildExit' if e[0] == 'exit' else 'ChildEof')) for e in case['events']])
     return '(%s, %s, %s, %s, %s)' % (copt(case['esc'], cN), cnat(case['fin']), cnat(case['fout']), ctext(case['pending']), evs)
 
 
 def expected(case):
-    """the property, computed directly: stdout = pending + filtered child output up to the end of the session; the child gets the
-    filtered keystrokes up to (not including) the first escape character"""
+    """the property, computed directly: stdout = pending + filtered child output up to the end of the session (what the child wrote
+    before it exited included: after an 'exit' the output events that follow at once are still due); the child gets the filtered
+    keystrokes up to (not including) the first escape character - or, when the child dies during the session, a prefix of that"""
     out = case['pending']
     typed = b''
     esc = case['esc']
+    dead = False
     for e in case['events']:
         if e[0] == 'eof':
             break
-        if e[0] == 'out':
+        if e[0] == 'exit':
+            dead = True
+        elif e[0] == 'out':
             out += apply_filter(case['fout'], e[1])
         else:
+            if dead:
+                break                     # nobody to type to: the session is over once the child's output has been shown
             d = apply_filter(case['fin'], e[1])
             if esc is not None and bytes([esc]) in d:
                 typed += d[:d.index(bytes([esc]))]
@@ -209,6 +229,53 @@ def real_sessions(ctx, pexpect, n):
     ctx.oracle_stats['real_sessions'] = tried
 
 
+def real_last_words(ctx, pexpect, n):
+    """a real child that writes a burst larger than one read and exits at once, or has exited before interact() starts: all of its
+    output must reach the screen before interact() returns"""
+    import pty
+    tried = 0
+    for it in range(n):
+        late = it % 2 == 1
+        um, us = pty.openpty()
+        sr, sw = os.pipe()
+        size = [5000, 1500, 12000, 999][it % 4]
+        c = pexpect.spawn('/bin/sh', ['-c', 'sleep 0.2; head -c %d /dev/zero | tr "\\0" x; echo END' % size], timeout=10)
+        try:
+            c.STDIN_FILENO, c.STDOUT_FILENO = us, sw
+            c.write_to_stdout = lambda b: os.write(sw, b)
+
+            class _Out:
+                def flush(self_):
+                    pass
+            c.stdout = _Out()
+            if late:
+                time.sleep(0.6)             # the child is already gone when interact() starts
+            c.interact()
+            os.close(sw)
+            sw = None
+            out = b''
+            while True:
+                d = os.read(sr, 65536)
+                if not d:
+                    break
+                out += d
+            tried += 1
+            want = b'x' * size + b'END\r\n'
+            if out != want:
+                ctx.hit('C15/real-last-words', 'a child wrote %d bytes and exited%s: interact() showed %d of them' % (len(want), ' before interact() was called' if late else '', len(out)),
+                        {'size': size, 'late': late})
+                return
+        finally:
+            for f in (sr, sw, um, us):
+                if f is not None:
+                    try:
+                        os.close(f)
+                    except OSError:
+                        pass
+            c.close(force=True)
+    ctx.oracle_stats['real_last_words'] = tried
+
+
 def run(ctx):
     pexpect = common.preflight()
     thorough = ctx.tier == 'thorough'
@@ -230,7 +297,7 @@ def run(ctx):
             bad = 'interact() raised %s' % err
         elif out != wout:
             bad = 'stdout received %r, expected %r' % (out, wout)
-        elif child != wchild:
+        elif child != wchild and not (any(e[0] == 'exit' for e in case['events']) and wchild.startswith(child)):
             bad = 'the child received %r, expected %r' % (child, wchild)
         elif not restored:
             bad = 'the terminal mode was not restored'
@@ -238,14 +305,13 @@ def run(ctx):
             nhit += 1
             ctx.hit('C15/sim', 'events %r, escape %r, filters in=%s out=%s: %s' % (case['events'], case['esc'], case['fin'], case['fout'], bad), {'case': repr(case)})
         if err is None:
-            escaped = any(e[0] == 'typed' and case['esc'] is not None and bytes([case['esc']]) in apply_filter(case['fin'], e[1]) for e in _session(case))
-            eof = (not escaped) and any(e[0] == 'eof' for e in case['events'][:len(case['events']) - left + 1]) and _ended_by_eof(case)
-            cases.append((coq_case(case), [out, child, escaped, _ended_by_eof(case), restored], {'case': repr(case)}))
+            cases.append((coq_case(case), [out, child, restored], {'case': repr(case)}))
     if os.path.exists(os.path.join(common.COQ, 'Interact/Run.vo')):
         ctx.run_cases('interact-sim', ['Interact.Model', 'Interact.Run'], 'run_interact', 'option N * nat * nat * list N * list iev', cases, shard=500)
     else:
         ctx.corr_broken.append(('interact-sim', {'error': 'model did not build'}))
     real_sessions(ctx, pexpect, 40 if thorough else 6)
+    real_last_words(ctx, pexpect, 24 if thorough else 6)
 
 
 def _session(case):
